@@ -10,6 +10,7 @@ import (
 	"io"
 	"net"
 	"net/url"
+	"reflect"
 	"strconv"
 	"sync"
 	"time"
@@ -731,6 +732,10 @@ func (client *Client) input() {
 							call.Error = strErr(derr.Error())
 						}
 					}
+				} else {
+					// an empty payload is an empty reply (a protobuf message of default values, an
+					// empty byte slice): the caller must not keep what Reply held before the call
+					resetReply(call.Reply)
 				}
 				if len(res.Metadata) > 0 {
 					call.ResMetadata = res.Metadata
@@ -792,6 +797,23 @@ func (client *Client) input() {
 
 	if err != nil && !closing {
 		log.Errorf("rpcx: client protocol error: %v", err)
+	}
+}
+
+// resetReply sets the value reply points to back to its zero value.
+func resetReply(reply interface{}) {
+	if reply == nil {
+		return
+	}
+	if r, ok := reply.(interface{ Reset() }); ok {
+		if v := reflect.ValueOf(reply); v.Kind() != reflect.Ptr || !v.IsNil() {
+			r.Reset()
+		}
+		return
+	}
+	v := reflect.ValueOf(reply)
+	if v.Kind() == reflect.Ptr && !v.IsNil() && v.Elem().CanSet() {
+		v.Elem().Set(reflect.Zero(v.Elem().Type()))
 	}
 }
 
